@@ -33,7 +33,7 @@ def cases(seed, tier):
     rng = rng_for(seed, 'C14')
     out = []
     mspecs = uni.model_specs(rng, tier)
-    ureps = 2 if tier == 'quick' else 14
+    ureps = 2 if tier == 'quick' else 100
     for ms in mspecs:
         for r in range(ureps):
             kind = str(rng.choice(['normal', 'skewed', 'five', 'huge', 'beta', 'heavy', 'bimodal', 'tiny', 'minuscule', 'offset']))
@@ -43,17 +43,17 @@ def cases(seed, tier):
         out.append({'kind': 'univariate', 'model': ms, 'constant': 0.0})       # a falsy constant
     for fam in biv.FAMILIES:
         taus = [0.05, 0.3, 0.6, 0.8] + ([-0.4, -0.8] if fam == 'frank' else [])
-        for tau in taus if tier == 'quick' else taus + [float(rng.uniform(0.02, 0.9)) for _ in range(20)]:
+        for tau in taus if tier == 'quick' else taus + [float(rng.uniform(0.02, 0.9)) for _ in range(150)]:
             out.append({'kind': 'bivariate', 'family': fam, 'tau': tau, 'mode': 'fitted', 'seed': int(rng.integers(1 << 31))})
             out.append({'kind': 'bivariate', 'family': fam, 'tau': tau, 'mode': 'param', 'seed': int(rng.integers(1 << 31))})
         out.append({'kind': 'bivariate', 'family': fam, 'mode': 'unfitted', 'tau': None, 'seed': 1})
     out.append({'kind': 'bivariate', 'family': 'clayton', 'mode': 'theta_inf', 'tau': 1.0, 'seed': 1})
-    for r in range(10 if tier == 'quick' else 150):
+    for r in range(10 if tier == 'quick' else 1000):
         t = mv.random_table_spec(rng, tier, n=int(rng.choice([60, 300])))
         if r % 3 == 0 and 'constant' not in t['marginals']:
             t['marginals'][int(rng.integers(len(t['marginals'])))] = 'constant'
         out.append({'kind': 'gaussian', 'table': t, 'config': mv.CONFIGS[r % 5], 'seed': int(rng.integers(1 << 31))})
-    for r in range(9 if tier == 'quick' else 120):
+    for r in range(9 if tier == 'quick' else 900):
         d = int(rng.integers(2, 6))
         out.append({'kind': 'vine', 'vine_type': ['center', 'direct', 'regular'][r % 3], 'd': d,
                     'truncated': int(rng.choice([1, 2, 3, 10])), 'n': int(rng.choice([60, 200])),
